@@ -393,6 +393,10 @@ class NetworkGraph(AbstractBaseIR):
             edge = self.edges[(source, target, idx)]
             # one entry per source VARIABLE: two variables of one source node are two inputs of the target variable
             skey = (source, edge.get('source_var'))
+            if isinstance(edge.get('weight'), np.ndarray):
+                # a connectivity (weight matrix or global weight) is an input of its own, also next to another one that
+                # reads the same variable
+                skey += (idx,)
             if skey not in data:
                 data[skey] = dict()
             for key in keys:
